@@ -8,6 +8,7 @@ import Infretis.Lemmas.PermFinal
 import Infretis.Lemmas.PermEmbed
 import Infretis.Lemmas.PermMain
 import Infretis.Lemmas.PermFull
+import Infretis.Lemmas.PermMC
 import Mathlib.Tactic.IntervalCases
 import Mathlib.Tactic.NormNum
 /-!
@@ -318,5 +319,24 @@ theorem reach_wWire :
 example : infRetis wWire locksWire 1 = .ok (probMatrix wWire locksWire) :=
   infRetis_eq_spec_small 1 wWire locksWire [1, 4, 3, 4] (by decide +kernel) reach_wWire
     (by decide +kernel) (by decide +kernel)
+
+
+/-! ## 8. The exact code paths are used up to 12: the Monte-Carlo marker only for larger blocks -/
+
+/-- **Block-size threshold.** For every input whatsoever: if `inf_retis` sends blocks to the
+    Monte-Carlo routine, each of them has more than 12 rows.  (With `infRetis_eq_spec` this is
+    the statement that exactness can only be lost on non-row-constant blocks > 12.) -/
+theorem monteCarlo_only_above_12 (W : Mat) (locks : List Bool) (off : Nat) (dims : List Nat)
+    (h : infRetis W locks off = .monteCarlo dims) : ∀ d ∈ dims, 12 < d :=
+  infRetis_mc_dims W locks off dims h
+
+/-- a free 13×13 block (sorted form) -/
+def free13 : Mat := (List.replicate 13 2 : Row) :: List.replicate 12 ((3 : Rat) :: List.replicate 12 1)
+
+/-- the marker is produced for a free block of 13, while 12 rows of the same kind still take the
+    permanent path (threshold on both sides) -/
+example : (sortedOut { offset := 0, m := 13, sortIdx := List.range 13, sorted := free13, equal := false }).mc = [13]
+    ∧ branchOf free13 = .random ∧ branchOf (free13.take 12) = .glynn ∧ branchOf (free13.take 1) = .single := by
+  decide +kernel
 
 end Infretis.C02
